@@ -12,6 +12,7 @@ LAWS = [
     ("root satisfies ?root", "entry root !root"),
     ("unit entry equals entry", "(|Dw| [Dw unit entry] != [Dw entry]) 1"),
     ("unit DIEs are root child*", "unit (|U| [U entry offset] (|A| [U root child* offset] (|B| A elem !(== B elem), B elem !(== A elem))))"),
+    ("the raw entries of a DIE's unit list it", "entry (|D| D !(unit raw entry (offset == D offset)))"),
     ("a DIE equals itself and its copy", "entry (|D| (D (!= D), [D] elem (!= D), D (offset != D offset), D (label != D label)))"),
 ]
 LAWS_RAW = [(n, "raw " + q if q.startswith("entry") or q.startswith("unit") else q.replace("(|Dw| ", "(|Dw| ").replace("Dw unit", "Dw raw unit").replace("Dw entry", "Dw raw entry"))
@@ -91,9 +92,15 @@ def run(tier):
                 elif ids(row[2]) != ids(ep): why = "parent"
                 elif ids(row[3]) != [er[0]]: why = "root"
                 elif row[4] != (len(ep) == 0): why = "?root"
+                else:
+                    # `unit' of a DIE is the unit whose raw `entry' lists it -- for a DIE that is seen through an
+                    # import, the imported unit, not the one `root' leads to
+                    ui = [j for j, ds in enumerate(v["unit_dies"]) if row[0][0] in ds]
+                    if len(ui) != 1 or row[5] != [b.unit_off[ui[0]]]:
+                        why = "unit (expected the unit at %s)" % [hex(b.unit_off[j]) for j in ui]
                 if why:
                     vd.observe(key + " " + why, {"die": row[0], "expected": {"kids": ek, "parent": ep, "root": er},
-                                                 "observed": {"kids": row[1], "parent": row[2], "root": row[3], "isroot": row[4]},
+                                                 "observed": {"kids": row[1], "parent": row[2], "root": row[3], "isroot": row[4], "unit": row[5]},
                                                  "file": b.path})
                     ok = False; break
         # raw mode: plain tree
